@@ -47,6 +47,11 @@ type alt struct {
 	name  string // "integer" | "@t3" … (printed as a string) when rules == nil
 	rules []rule
 	match bool // the node's example is admitted by this member (by construction)
+	// adm: ids of ALL the examples this member admits: the node's own one (match) and — when the
+	// node is the root of a user type — the values that reach the type through a rule
+	// ({type: "@t"} / an or member, directly or through other types). By construction every such
+	// example is admitted by exactly one member.
+	adm []int
 }
 
 type node struct {
@@ -60,6 +65,7 @@ type node struct {
 	kids  []*node
 	rules []rule
 	mode  string // plain | enum | or | any | ref | format | shortcut
+	fmt   string // strings: the content is a valid example of this format ("" = arbitrary content)
 	multi bool   // annotation style /* … */ on several lines
 	qn    bool   // rule names quoted
 	// set by the printer
@@ -72,7 +78,10 @@ type node struct {
 type typ struct {
 	name string
 	root *node
-	refs []int // ids of scalar nodes that reference this type through a rule ({type:"@t"} or an or member)
+	// refs: ids of the scalar nodes whose value the rules of this type speak about: nodes that name the
+	// type in a rule ({type:"@t"} or an or member) and, transitively, the nodes that name a type whose
+	// root names this one (`@t1 = 5 // {type: "@t2"}`: a value ruled by @t1 is ruled by @t2 too).
+	refs []int
 }
 
 type schema struct {
@@ -313,7 +322,7 @@ func cloneRules(rs []rule) []rule {
 		if r.alts != nil {
 			out[i].alts = make([]alt, len(r.alts))
 			for j, a := range r.alts {
-				out[i].alts[j] = alt{name: a.name, match: a.match, rules: cloneRules(a.rules)}
+				out[i].alts[j] = alt{name: a.name, match: a.match, rules: cloneRules(a.rules), adm: append([]int(nil), a.adm...)}
 			}
 		}
 	}
@@ -351,6 +360,8 @@ type gen struct {
 	s         *schema
 	budget    int
 	shortcuts bool // allow `@t` value shortcuts to structured types (corruption stream only)
+	refP      float64 // extra probability of a scalar ruled by a {type: "@t"} reference (history stream)
+	chain     int     // nesting of scalarTypeFor: types created for the root rule list of other types
 }
 
 func (g *gen) p(x float64) bool { return g.r.Float64() < x }
@@ -433,6 +444,13 @@ func (g *gen) scalar(inObj bool, depth int) *node {
 	n.depth = depth
 	g.setExample(n)
 	x := g.r.Float64()
+	if g.refP > 0 && g.p(g.refP) {
+		x = 0.80 + 0.13*g.r.Float64() // a reference
+	}
+	if k == kStr && x >= 0.65 && x < 0.93 && g.p(0.3) {
+		// a string that is a valid format example: the types it is ruled by may demand the format
+		g.setFormatExample(n, formatNames[g.r.Intn(len(formatNames))])
+	}
 	switch {
 	case x < 0.08:
 		// bare example, no annotation
@@ -453,13 +471,19 @@ func (g *gen) scalar(inObj bool, depth int) *node {
 		n.rules = g.companions(n.rules, inObj)
 	case x < 0.93:
 		n.mode = "ref"
-		t := g.scalarType(n)
+		var t *typ
+		if g.p(0.2) {
+			t = g.reuseType(n)
+		}
+		if t == nil {
+			t = g.scalarTypeFor([]*node{n}, nil)
+		}
 		n.rules = g.companions([]rule{{name: "type", s: t.name}}, inObj)
 	default:
 		if k == kStr {
 			n.mode = "format"
 			f := formatNames[g.r.Intn(len(formatNames))]
-			g.setString(n, formatGood[f][g.r.Intn(len(formatGood[f]))])
+			g.setFormatExample(n, f)
 			n.rules = []rule{{name: "type", s: f}}
 			if g.p(0.3) {
 				n.rules = append(n.rules, rule{name: "const", b: g.p(0.5)})
@@ -471,6 +495,62 @@ func (g *gen) scalar(inObj bool, depth int) *node {
 	}
 	g.shuffle(n.rules)
 	return n
+}
+
+func (g *gen) setFormatExample(n *node, f string) {
+	g.setString(n, formatGood[f][g.r.Intn(len(formatGood[f]))])
+	n.fmt = f
+}
+
+// reuseType: rule the fresh scalar n by an EXISTING scalar type: n takes over the value of the
+// type's own example, so every rule that speaks about that example speaks about n as well.
+func (g *gen) reuseType(n *node) *typ {
+	var cands []*typ
+	for _, t := range g.s.types {
+		if t.root.kind != kObj && t.root.kind != kArr && t.root.kind != kRef {
+			cands = append(cands, t)
+		}
+	}
+	if len(cands) == 0 {
+		return nil
+	}
+	t := cands[g.r.Intn(len(cands))]
+	copyValue(n, t.root)
+	g.s.addRefLike(n.id, t.root.id)
+	return t
+}
+
+func copyValue(dst, src *node) {
+	dst.kind, dst.lit, dst.num, dst.sig, dst.str, dst.fmt = src.kind, src.lit, src.num, src.sig, src.str, src.fmt
+}
+
+// addRefLike registers the value `id` as one more example of everything that speaks about the
+// type root `like` (id names like's type in a rule and has the same value as like).
+func (s *schema) addRefLike(id, like int) {
+	for _, t := range s.types {
+		if t.root.id == like || hasID(t.refs, like) {
+			t.refs = append(t.refs, id)
+		}
+	}
+	for _, t := range s.types { // like is a type root: only or sets at type roots speak about it
+		n := t.root
+		for i := range n.rules {
+			for j := range n.rules[i].alts {
+				if a := &n.rules[i].alts[j]; hasID(a.adm, like) {
+					a.adm = append(a.adm, id)
+				}
+			}
+		}
+	}
+}
+
+func hasID(xs []int, x int) bool {
+	for _, y := range xs {
+		if x == y {
+			return true
+		}
+	}
+	return false
 }
 
 func (g *gen) setExample(n *node) {
@@ -687,7 +767,10 @@ func (g *gen) otherItem(exs []*node) string {
 	}
 }
 
-func (g *gen) enumItems(exs []*node) []string {
+func (g *gen) enumItems(exs []*node) []string { return g.enumItemsAvoid(exs, nil) }
+
+// enumItemsAvoid: the literals of exs plus random other items that equal none of exs / avoid.
+func (g *gen) enumItemsAvoid(exs []*node, avoid []*node) []string {
 	var items []string
 	seen := map[string]bool{}
 	for _, e := range exs {
@@ -696,8 +779,9 @@ func (g *gen) enumItems(exs []*node) []string {
 			items = append(items, e.lit)
 		}
 	}
+	all := append(append([]*node(nil), exs...), avoid...)
 	for i := g.r.Intn(5); i > 0; i-- {
-		it := g.otherItem(exs)
+		it := g.otherItem(all)
 		if !seen[it] {
 			seen[it] = true
 			items = append(items, it)
@@ -707,8 +791,10 @@ func (g *gen) enumItems(exs []*node) []string {
 	return items
 }
 
-func (g *gen) enumRules(exs []*node, inObj bool) []rule {
-	rs := []rule{{name: "enum", items: g.enumItems(exs)}}
+func (g *gen) enumRules(exs []*node, inObj bool) []rule { return g.enumRulesAvoid(exs, nil, inObj) }
+
+func (g *gen) enumRulesAvoid(exs []*node, avoid []*node, inObj bool) []rule {
+	rs := []rule{{name: "enum", items: g.enumItemsAvoid(exs, avoid)}}
 	if g.p(0.3) {
 		rs = append(rs, rule{name: "type", s: "enum"})
 	}
@@ -722,28 +808,145 @@ func (g *gen) enumRules(exs []*node, inObj bool) []rule {
 	return g.companions(rs, inObj)
 }
 
-// scalarType adds a scalar user type `@tN` whose rules admit its own example
-// and the referencing example ref.
-func (g *gen) scalarType(ref *node) *typ {
-	tn := g.newNode(ref.kind)
-	if g.p(0.25) {
-		// same value as the reference
-		tn.lit, tn.num, tn.sig, tn.str = ref.lit, ref.num, ref.sig, ref.str
-	} else {
-		g.setExample(tn)
-		if ref.kind == kBool && g.p(0.5) {
-			tn.lit = ref.lit
+func ids(ns []*node) []int {
+	out := make([]int, len(ns))
+	for i, n := range ns {
+		out[i] = n.id
+	}
+	return out
+}
+
+func commonFmt(ns []*node) string {
+	f := ns[0].fmt
+	for _, n := range ns {
+		if n.fmt != f {
+			return ""
 		}
 	}
-	exs := []*node{tn, ref}
-	if g.p(0.2) {
+	return f
+}
+
+// scalarTypeFor adds a scalar user type `@tN` that admits its own example and the examples
+// exs (scalars of one kind that name the type in a rule, directly or through other types).
+// The root of the type carries rules of every kind a scalar can carry: bounds / lengths /
+// regex / declared type, an inline enum, a format, type any, an or set (names, rule-sets,
+// enum rule-sets, further user types — the type's own example may be of ANOTHER kind than
+// exs and be admitted by another member), or a reference to a further type.
+func hasNull(ns []*node) bool {
+	for _, n := range ns {
+		if n.kind == kNull {
+			return true
+		}
+	}
+	return false
+}
+
+// noNullable switches every nullable: true of rule list rs off.
+func noNullable(rs []rule) []rule {
+	for i := range rs {
+		if rs[i].name == "nullable" {
+			rs[i].b = false
+		}
+	}
+	return rs
+}
+
+func kindsClash(a, b kind) bool {
+	return a == b || ((a == kInt || a == kFloat) && (b == kInt || b == kFloat))
+}
+
+// (avoid: examples of other kinds that the new type must NOT admit — the type is going to be a
+// member of an or set whose other members admit them.)
+func (g *gen) scalarTypeFor(exs []*node, avoid []*node) *typ {
+	g.chain++
+	defer func() { g.chain-- }()
+	k := exs[0].kind
+	f := commonFmt(exs)
+	canNest := g.chain <= 2 && len(g.s.types)+g.chain < 6
+	x := g.r.Float64()
+	if f != "" && g.p(0.5) {
+		x = 0.40 // format
+	}
+	tn := g.newNode(k)
+	fresh := func() {
+		if g.p(0.25) {
+			copyValue(tn, exs[g.r.Intn(len(exs))]) // same value as a reference
+			return
+		}
+		g.setExample(tn)
+		if k == kBool && g.p(0.5) {
+			tn.lit = exs[0].lit
+		}
+		if f != "" {
+			g.setFormatExample(tn, f)
+		}
+	}
+	all := append([]*node{tn}, exs...)
+	switch {
+	case x < 0.20: // an or set at the root of the type
+		tn.mode = "or"
+		if g.p(0.55) {
+			// own example of another kind, admitted by another member than exs
+			// (a kind that no example the type must not admit has)
+			var ks []kind
+			for _, c := range scalarKinds {
+				ok := !kindsClash(c, k)
+				for _, a := range avoid {
+					if kindsClash(c, a.kind) {
+						ok = false
+					}
+				}
+				if ok {
+					ks = append(ks, c)
+				}
+			}
+			if len(ks) > 0 {
+				tn.kind = ks[g.r.Intn(len(ks))]
+				g.setExample(tn)
+				tn.rules = g.orRulesFor(tn, [][]*node{{tn}, exs}, avoid, false)
+				break
+			}
+		}
+		fresh()
+		tn.rules = g.orRulesFor(tn, [][]*node{all}, avoid, false)
+	case x < 0.30 && canNest: // a reference to a further type
+		fresh()
+		tn.mode = "ref"
+		t2 := g.scalarTypeFor(all, avoid)
+		tn.rules = []rule{{name: "type", s: t2.name}}
+		if g.p(0.3) {
+			tn.rules = append(tn.rules, rule{name: "nullable", b: g.p(0.6)})
+		}
+	case x < 0.35 && len(avoid) == 0:
+		fresh()
+		tn.mode = "any"
+		tn.rules = []rule{{name: "type", s: "any"}}
+		if g.p(0.3) {
+			tn.rules = append(tn.rules, rule{name: "nullable", b: g.p(0.6)})
+		}
+	case x < 0.45 && f != "":
+		fresh()
+		tn.mode = "format"
+		tn.rules = []rule{{name: "type", s: f}}
+		if g.p(0.3) {
+			tn.rules = append(tn.rules, rule{name: "const", b: false})
+		}
+		if g.p(0.3) {
+			tn.rules = append(tn.rules, rule{name: "nullable", b: g.p(0.6)})
+		}
+	case x < 0.60:
+		fresh()
 		tn.mode = "enum"
-		tn.rules = g.enumRules(exs, false)
-	} else {
-		tn.rules = g.plainRules(ref.kind, exs, false, true)
+		tn.rules = g.enumRulesAvoid(all, avoid, false)
+	default:
+		fresh()
+		tn.rules = g.plainRules(k, all, false, true)
+	}
+	if hasNull(avoid) {
+		tn.rules = noNullable(tn.rules) // nullable: true would admit the null the type must not admit
 	}
 	g.shuffle(tn.rules)
-	return g.addType(tn, []int{ref.id})
+	return g.addType(tn, ids(exs))
 }
 
 func (g *gen) addType(root *node, refs []int) *typ {
@@ -759,20 +962,48 @@ var scalarKinds = []kind{kInt, kFloat, kStr, kBool, kNull}
 // orRules builds an or set for node n (a scalar, or an empty object / array):
 // exactly one member admits the example.
 func (g *gen) orRules(n *node, inObj bool) []rule {
-	nalts := 2 + g.r.Intn(2)
-	mi := g.r.Intn(nalts)
+	return g.orRulesFor(n, [][]*node{{n}}, nil, inObj)
+}
+
+// orRulesFor builds an or set for node n whose rule list speaks about several examples:
+// groups[0] holds n itself; every group (examples of one kind) is admitted by exactly one
+// member, no other member admits any of them, and no member admits one of `foreign`.
+func (g *gen) orRulesFor(n *node, groups [][]*node, foreign []*node, inObj bool) []rule {
+	all := append([]*node(nil), foreign...)
+	for _, gr := range groups {
+		all = append(all, gr...)
+	}
+	nalts := len(groups) + 1 + g.r.Intn(2)
+	pos := g.r.Perm(nalts)[:len(groups)]
 	names := map[string]bool{}
 	alts := make([]alt, nalts)
-	alts[mi] = g.matchingAlt(n)
-	if alts[mi].rules == nil {
-		names[alts[mi].name] = true
+	filled := make([]bool, nalts)
+	for gi, gr := range groups {
+		avoid := append([]*node(nil), foreign...)
+		for gj, o := range groups {
+			if gj != gi {
+				avoid = append(avoid, o...)
+			}
+		}
+		var a alt
+		if gi == 0 && (n.kind == kObj || n.kind == kArr) {
+			a = g.matchingContainerAlt(n)
+		} else {
+			a = g.matchingAltFor(gr, avoid, gi == 0)
+		}
+		a.match = gi == 0
+		a.adm = ids(gr)
+		if a.rules == nil {
+			names[a.name] = true
+		}
+		alts[pos[gi]], filled[pos[gi]] = a, true
 	}
 	for i := range alts {
-		if i == mi {
+		if filled[i] {
 			continue
 		}
 		for {
-			a := g.otherAlt(n)
+			a := g.otherAltFor(all)
 			if a.rules == nil {
 				if names[a.name] {
 					continue
@@ -790,38 +1021,62 @@ func (g *gen) orRules(n *node, inObj bool) []rule {
 	return g.companions(rs, inObj)
 }
 
-func (g *gen) matchingAlt(n *node) alt {
-	switch n.kind {
-	case kObj:
+func (g *gen) matchingContainerAlt(n *node) alt {
+	if n.kind == kObj {
 		if g.p(0.5) {
-			return alt{name: "object", match: true}
+			return alt{name: "object"}
 		}
 		rs := []rule{{name: "type", s: "object"}}
 		if g.p(0.4) {
 			rs = append(rs, rule{name: "additionalProperties", s: []string{"true", "false", `"string"`, `"any"`}[g.r.Intn(4)]})
 		}
 		g.shuffle(rs)
-		return alt{rules: rs, match: true}
-	case kArr:
-		if g.p(0.5) {
-			return alt{name: "array", match: true}
-		}
-		rs := []rule{{name: "type", s: "array"}}
-		if g.p(0.4) {
-			rs = append(rs, rule{name: "minItems", n: 0})
-		}
-		if g.p(0.4) {
-			rs = append(rs, rule{name: "maxItems", n: g.r.Intn(3)})
-		}
-		g.shuffle(rs)
-		return alt{rules: rs, match: true}
+		return alt{rules: rs}
 	}
+	if g.p(0.5) {
+		return alt{name: "array"}
+	}
+	rs := []rule{{name: "type", s: "array"}}
+	if g.p(0.4) {
+		rs = append(rs, rule{name: "minItems", n: 0})
+	}
+	if g.p(0.4) {
+		rs = append(rs, rule{name: "maxItems", n: g.r.Intn(3)})
+	}
+	g.shuffle(rs)
+	return alt{rules: rs}
+}
+
+// matchingAltFor: a member that admits the scalars exs (one kind) and none of avoid (other
+// kinds). own: exs contains the example of the node that carries the or set. The JSON kind
+// of a rule-set WITHOUT a concrete `type` (and of `type: "enum"` / "decimal") is the kind of
+// that node's example, and const: true pins that node's value — so a member for foreign
+// examples only gets a concrete type and no const.
+func (g *gen) matchingAltFor(exs []*node, avoid []*node, own bool) alt {
+	k := exs[0].kind
 	x := g.r.Float64()
+	if !own && x >= 0.75 && x < 0.87 {
+		x = 0.5 // no enum rule-set for foreign examples
+	}
 	switch {
 	case x < 0.3:
-		return alt{name: n.kind.name(), match: true}
+		return alt{name: k.name()}
 	case x < 0.75:
-		rs := g.plainRules(n.kind, []*node{n}, false, false)
+		rs := g.plainRules(k, exs, false, false)
+		if hasNull(avoid) {
+			rs = noNullable(rs)
+		}
+		if !own {
+			keep := rs[:0]
+			for _, r := range rs {
+				if r.name != "const" && r.name != "type" && r.name != "precision" {
+					keep = append(keep, r)
+				}
+			}
+			rs = append(keep, rule{name: "type", s: k.name()})
+			g.shuffle(rs)
+			return alt{rules: rs}
+		}
 		hasType := false
 		for _, r := range rs {
 			if r.name == "type" {
@@ -838,41 +1093,63 @@ func (g *gen) matchingAlt(n *node) alt {
 			if hasPrec {
 				rs = append(rs, rule{name: "type", s: "decimal"})
 			} else {
-				rs = append(rs, rule{name: "type", s: n.kind.name()})
+				rs = append(rs, rule{name: "type", s: k.name()})
 			}
 		}
 		g.shuffle(rs)
-		return alt{rules: rs, match: true}
+		return alt{rules: rs}
 	case x < 0.87:
-		rs := []rule{{name: "enum", items: g.enumItems([]*node{n})}}
+		rs := []rule{{name: "enum", items: g.enumItemsAvoid(exs, avoid)}}
 		if g.p(0.3) {
 			rs = append(rs, rule{name: "type", s: "enum"})
 		}
 		g.shuffle(rs)
-		return alt{rules: rs, match: true}
+		return alt{rules: rs}
 	default:
-		t := g.scalarType(n)
-		if g.p(0.5) {
-			return alt{name: t.name, match: true}
+		if g.chain > 2 || len(g.s.types)+g.chain >= 7 {
+			return alt{name: k.name()}
 		}
-		return alt{rules: []rule{{name: "type", s: t.name}}, match: true}
+		t := g.scalarTypeFor(exs, avoid)
+		if g.p(0.5) {
+			return alt{name: t.name}
+		}
+		return alt{rules: []rule{{name: "type", s: t.name}}}
 	}
 }
 
-// otherAlt: a member that does NOT admit the example of n.
-func (g *gen) otherAlt(n *node) alt {
-	numeric := n.kind == kInt || n.kind == kFloat
+// otherAltFor: a member that admits NONE of the examples exs.
+func (g *gen) otherAltFor(exs []*node) alt {
+	clash := func(k kind) bool {
+		for _, e := range exs {
+			if k == e.kind {
+				return true
+			}
+			if (k == kInt || k == kFloat) && (e.kind == kInt || e.kind == kFloat) {
+				return true
+			}
+		}
+		return false
+	}
+	hasStr, hasCont := false, false
+	for _, e := range exs {
+		if e.kind == kStr {
+			hasStr = true
+		}
+		if e.kind == kObj || e.kind == kArr {
+			hasCont = true
+		}
+	}
 	for {
 		switch g.r.Intn(5) {
 		case 0, 1: // a type name of another kind
 			k := []kind{kInt, kFloat, kStr, kBool, kNull, kObj, kArr}[g.r.Intn(7)]
-			if k == n.kind || (numeric && (k == kInt || k == kFloat)) {
+			if clash(k) {
 				continue
 			}
 			return alt{name: k.name()}
 		case 2: // a rule-set of another kind
 			k := scalarKinds[g.r.Intn(5)]
-			if k == n.kind || (numeric && (k == kInt || k == kFloat)) {
+			if clash(k) {
 				continue
 			}
 			d := &node{kind: k}
@@ -887,22 +1164,40 @@ func (g *gen) otherAlt(n *node) alt {
 			rs = append(keep, rule{name: "type", s: k.name()})
 			g.shuffle(rs)
 			return alt{rules: rs}
-		case 3: // same kind, violated by the example
-			switch n.kind {
+		case 3: // the kind of one of the examples, violated by every example of that kind
+			e := exs[g.r.Intn(len(exs))]
+			switch e.kind {
 			case kInt, kFloat:
-				if g.p(0.5) {
-					return alt{rules: []rule{{name: "type", s: n.kind.name()}, {name: "min", num: n.num + 1 + int64(g.r.Intn(5000))}}}
+				lo, hi := e.num, e.num
+				for _, o := range exs {
+					if o.kind == kInt || o.kind == kFloat {
+						if o.num < lo {
+							lo = o.num
+						}
+						if o.num > hi {
+							hi = o.num
+						}
+					}
 				}
-				return alt{rules: []rule{{name: "max", num: n.num - 1 - int64(g.r.Intn(5000))}, {name: "type", s: n.kind.name()}}}
+				if g.p(0.5) {
+					return alt{rules: []rule{{name: "type", s: e.kind.name()}, {name: "min", num: hi + 1 + int64(g.r.Intn(5000))}}}
+				}
+				return alt{rules: []rule{{name: "max", num: lo - 1 - int64(g.r.Intn(5000))}, {name: "type", s: e.kind.name()}}}
 			case kStr:
-				return alt{rules: []rule{{name: "type", s: "string"}, {name: "minLength", n: len(n.str) + 1 + g.r.Intn(3)}}}
+				ml := 0
+				for _, o := range exs {
+					if o.kind == kStr && len(o.str) > ml {
+						ml = len(o.str)
+					}
+				}
+				return alt{rules: []rule{{name: "type", s: "string"}, {name: "minLength", n: ml + 1 + g.r.Intn(3)}}}
 			}
 			continue
 		default: // a format, for examples that are not strings
-			if n.kind == kStr {
+			if hasStr {
 				continue
 			}
-			if (n.kind == kObj || n.kind == kArr) && !g.p(0.08) {
+			if hasCont && !g.p(0.08) {
 				continue // rare: feeds the known finding K-C04-or-container
 			}
 			return alt{name: formatNames[g.r.Intn(5)]}
